@@ -18,7 +18,9 @@ ELEMENTS = ['a', 'ul', 'li.c', 'p#i', 'x[t=v]', 'x[t="a b"]', 'x[t]', 'd{text}',
 JOINS = ['>', '+', '^', '*3>', '*2+']
 STYLE_ABBRS = ['p10', 'm10-20', 'c#fc0.5', 'p10!', '@m', 'd:n', 'p10+m20', 'w100p', 'm-10--20', 'trf-s(2)', 'bd1-s', 'fz1.5e', 'lg(a,b)']
 LEFT = ['', ' ', 'foo ', '\t', '<div>', '<a href="x">', '</p>', '<br/>', '<img src=x>', '<p class=a>', 'a b="c" ', '> ',
-        '<img alt="it\'s" />', "<p title='say \"hi\"' id=x>", '<input value="don\'t" disabled>']
+        '<img alt="it\'s" />', "<p title='say \"hi\"' id=x>", '<input value="don\'t" disabled>',
+        # complete tags whose unquoted attribute values hold balanced brackets (JSX expressions, handlers)
+        '<div className={styles.foo}>', '<button onclick=go()>', '<i data-x=[1]>', '<a b={c[0]} d=(e)>']
 RIGHT = ['', ' bar', '</div>', '<b>']
 BOUNDS = {
     'quick': dict(line=4, line5=False, elements=2),
